@@ -3,6 +3,7 @@ Sweep of every (system, table, event, age) x the 0.01 grid x every documented in
 (checks/scoring_common.py), plus the table clauses: every table ordered, every key a valid normalised event code
 that is reachable through the public function."""
 from vlib import common
+from vlib import orderpass
 from vlib.common import Report, Violation, HarnessError, Acc, pmap, merge
 from checks import scoring_common as sc
 
@@ -106,6 +107,7 @@ def run(tier):
     rep.assumptions += ['table constants are the decimal literals in the source; Sportshall thresholds re-read from RAWDATA (SHJ in cm)',
                         'Tyrving: one-decimal timed text is hand-timed; Bulgarian field events take numbers only; Sportshall takes text or numbers (no m:ss)',
                         'equal thresholds give the higher points']
+    orderpass.part(rep, sc.order_calls(), 'scoring call-order pass')
     return rep.finish()
 
 
